@@ -49,6 +49,7 @@ def parseWorkload : Option String → Option Workload
   | some "loss" => some .loss
   | some "dup" => some .dup
   | some "reorder" => some .reorder
+  | some "idle" => some .idle
   | _ => none
 
 def step (st : Option M) (ts : List String) : Option M × List String :=
@@ -79,10 +80,16 @@ def step (st : Option M) (ts : List String) : Option M × List String :=
         ok (m1.ev (.bind s))
   | some "phase", some m =>
     if m.closed then bad else
-    match num fs "ssrc", num fs "n", numD fs "p" 10, numD fs "fb" 0, parseWorkload (lookup fs "workload") with
-    | some s, some n, some p, some fb, some w =>
-      if !m.bound.contains s ∨ p < 2 then bad else ok (m.phase w s p fb n)
-    | _, _, _, _, _ => bad
+    match num fs "ssrc", num fs "n", numD fs "p" 10, numD fs "fb" 0, numD fs "rr" 1, parseWorkload (lookup fs "workload") with
+    | some s, some n, some p, some fb, some rr, some w =>
+      if p < 2 ∨ rr < 1 ∨ rr > 1000 ∨ !(List.range rr).all (fun j => m.bound.contains (s + j)) then bad
+      else ok (m.phase w s rr p fb n)
+    | _, _, _, _, _, _ => bad
+  | some "jump", some m =>
+    if m.closed then bad else
+    match num fs "ssrc", num fs "d" with
+    | some s, some d => if !m.bound.contains s ∨ d > 65535 then bad else ok (m.jump s d)
+    | _, _ => bad
   | some "unbind", some m =>
     if m.closed then bad else
     match num fs "ssrc" with
